@@ -412,12 +412,13 @@ class SparselyBin(Factory, Container):
         # >>> np.divide(q,1,q)
         # >>> np.floor(q,q)
         q = np.array(q, dtype=np.float64)
-        neginfs = np.isneginf(q)
-        posinfs = np.isposinf(q)
 
         np.subtract(q, self.origin, q)
         np.divide(q, self.binWidth, q)
         np.floor(q, q)
+        # saturate like bin(): not only +-inf but every quotient outside the 64-bit index range
+        neginfs = q <= LONG_MINUSINF
+        posinfs = q >= LONG_PLUSINF
         q = np.array(q, dtype=np.int64)
         q[neginfs] = LONG_MINUSINF
         q[posinfs] = LONG_PLUSINF
